@@ -244,6 +244,14 @@ func (c *Ctx) errOrigins(v ssa.Value, at *ssa.BasicBlock, depth int, seen map[ss
 				out["user"] = true
 				return
 			}
+			if cal := call.Common().StaticCallee(); cal != nil && c.isNew(cal) && depth < 4 {
+				for _, ret := range returnsOf(cal) {
+					if x.Index < len(ret.Results) {
+						c.errOrigins(ret.Results[x.Index], ret.Block(), depth+1, seen, out)
+					}
+				}
+				return
+			}
 			out["foreign:"+trunc(c.calleeName(call.Common()), 60)] = true
 			return
 		}
@@ -401,7 +409,15 @@ func (c *Ctx) typedRules(r *Report, scope map[*ssa.Function]bool) {
 			} else {
 				types_ = []string{tt}
 			}
-			w, known := want[fname]
+			// a helper extracted from a known function inherits that function's documented types
+			var w []string
+			known := false
+			for _, owner := range c.ownerNames(fn) {
+				if ww, k := want[owner]; k {
+					known = true
+					w = append(w, ww...)
+				}
+			}
 			ok := known
 			for _, t := range types_ {
 				f := false
